@@ -226,7 +226,7 @@ pub fn generate(rng: &mut Rng, tier: Tier) -> Scenario {
             ops.push(Op::Fork { src: 0, dst: 0 });
         }
         if rng.chance(0.06) {
-            ops.push(Op::RoundTrip { n: 0, times: 1 });
+            ops.push(Op::RoundTrip { n: 0, times: 1, json: false });
         }
         // phase 2: the reset (sometimes a storm)
         let k = if rng.chance(0.2) { rng.range(2, 3) } else { 1 };
